@@ -14,10 +14,11 @@ claimed = {
          "The LDS unit runs a wavefront's instruction on the shared ALU only after binding the ALU to that wavefront's own work-group LDS, and the emulator's FLAT handlers access memory only for active lanes with the lane's own address and data. "
          "The write-back of a returned vector load gives each recorded lane what the emulator's FLAT load handlers load from the same bytes (byte zero-/sign-extended, 16 bits zero-extended, or the register-count words), and a returned scalar load writes the response data to the recorded destination registers. "
          "The three places that decide the FLAT addressing mode agree: the decoder gives the address operand one register exactly when the SADDR field selects a scalar base (per architecture; decodeFLAT), which is the test of the timing coalescer, and the two emulator ALUs test the SADDR field with the same per-architecture rule. "
+         "The emulator's instruction loop carries the obligation that the ALU sees the same program counter as in the timing pipeline (the address of the instruction being executed); it fails on the current code and is a recorded finding. "
          "The execution units share the emulator's ALU by construction (cu.Builder). Not under contract: the lane bookkeeping of the coalescer (which bytes belong to which lane), cache flush before copies, and the whole-program equivalence itself."),
    note=(TB + "The emulator-side address formula is transcribed into the contract, not mechanically extracted (the emulator's state interface is modelled differently under C03). Whole-program equivalence of the two modes needs program-level reasoning outside this technique. "
          "Register initialisation: mathematical integers with overflow obligations; work-group sizes <= 1024 per dimension, flat ids <= 1024, grid sizes <= 0xFFFF0000 are preconditions; the packed V5 word is compared as the same uninterpreted bit expression on both sides. "
-         "Two genuine defects repaired (timing mode did not pack work-item ids for V5 code objects; timing-mode write-back of flat_load_sbyte/flat_load_ushort wrote the wrong bytes); two known findings, demonstrated on the real dispatcher in the thorough tier: timing mode reserves scalar registers for the unsupported queue pointer and private segment size, emulation does not."),
+         "Two genuine defects repaired (timing mode did not pack work-item ids for V5 code objects; timing-mode write-back of flat_load_sbyte/flat_load_ushort wrote the wrong bytes); three known findings, demonstrated on the real code in the thorough tier: timing mode reserves scalar registers for the unsupported queue pointer and private segment size, emulation does not; the emulator hands the ALU a PC that is already advanced, the timing pipeline the instruction's own address (s_getpc_b64 differs between the modes)."),
    design="5 (C02)", technique="deductive verification: WP-style VC generation over go/ssa + SMT (return-site obligation)"),
  "C03": dict(
    text=("Every scalar ALU handler of both ALUs (SOP1, SOP2, SOPC, SOPK, SOPP branches; 116 handlers) and the integer vector handlers of both ALUs (VOP2 integer/logic/shift/carry, VOP1 mov/not/bfrev, "
